@@ -11,6 +11,7 @@
 XPath 2.0 implementation - part 3 (functions)
 """
 import math
+from copy import copy
 import datetime
 import time
 import re
@@ -622,7 +623,7 @@ def select__insert_before(self: XPathFunction, context: ta.ContextType = None) \
     insert_at_pos = max(0, position - 1)
 
     inserted = False
-    for pos, result in enumerate(self[0].select(context)):
+    for pos, result in enumerate(self[0].select(copy(context))):
         if not inserted and pos == insert_at_pos:
             yield from self[2].select(context)
             inserted = True
@@ -790,8 +791,8 @@ def evaluate__deep_equal(self: XPathFunction, context: ta.ContextType = None) ->
         collation = self.get_argument(context, 2, required=True, cls=str)
 
     return deep_equal(
-        seq1=self[0].select(context),
-        seq2=self[1].select(context),
+        seq1=self[0].select(copy(context)),
+        seq2=self[1].select(copy(context)),
         collation=collation,
     )
 
